@@ -5,8 +5,11 @@ EXTENDS CmdLine, Json, IOUtils
 DefSeq == ndJsonDeserialize(IOEnv.DEFS)
 MCDefs == RangeOf(DefSeq)
 \* replay configs print one line per reachable state: the case and the outcome demanded
+\* (a help outcome also says what the text must tell about the variables of the level it describes)
 Emit == PrintT(<<"REPLAY", ToJson([def |-> def.id, line |-> line, env |-> env, outside |-> st.outside,
-                                   expect |-> Out])>>)
+                                   expect |-> IF Out.class = "stdout" /\ Out.kind = "help" /\ EnvVars(def) # {} /\ ~st.ambig
+                                              THEN Out @@ [envlines |-> HelpEnvLines(st.frames[Len(Out.path) + 1].lvl, env)]
+                                              ELSE Out])>>)
 \* completion configs print, per viable state, every partial item with the bounds the specification puts on the candidates
 ActiveCmds == LET t == Cur(st).lvl.tail IN
               IF t.kind = "cmd" THEN [k \in DOMAIN t.cmds |-> [n |-> t.cmds[k].names[1], w |-> CmdWords(t.cmds[k])]] ELSE <<>>
